@@ -20,7 +20,7 @@ Section P.
   Hypothesis Hpad : vr_year_pad vr = true.
   Hypothesis Hflip : vr_ref_flip_unreg vr = true.
   Variable ids : list ustring.
-  Hypothesis Hclosed : closed_ok vr w ids = true.
+  Hypothesis Hclosed : closed_oki vr w ids = true.
   Hypothesis Hreg : registry_ok w = true.
   Variable pids : list ustring.
   Hypothesis Hsub : forallb (fun k => mem_ustr k ids) pids = true.
@@ -39,7 +39,7 @@ Section P.
   Proof.
     intros fuel interop d ci Sv dfl hc Hp Hmp Hid H.
     destruct fuel as [| f]; [cbn [run] in H; discriminate |].
-    destruct (parse_roundtrip_full vr ev w pattern_ok selectors_ok Hpad ids (closed_ok_weaken vr w ids Hclosed) Hreg pids Hsub Hpc (S f) true interop d ci Sv dfl hc
+    destruct (parse_roundtrip_full vr ev w pattern_ok selectors_ok Hpad ids (closed_oki_weaken vr w ids Hclosed) Hreg pids Hsub Hpc (S f) true interop d ci Sv dfl hc
                 Hp Hmp Hid H) as [R1 [Hpl _]].
     set (o := PObject ci Sv dfl hc) in *.
     destruct (parse_inv vr ev w pattern_ok selectors_ok pids f true interop (omem o) ci Sv dfl hc Hmp R1) as [t [vv [Ety [Edet [Ecf Er]]]]].
